@@ -344,6 +344,9 @@ def check_branch(P, R, key, rule="BRANCH"):
         # fold helpers (pure list plumbing + operator.add) are not kernels
         only_d = {k for k in only_d if not (P.func(k, required=False) is not None and is_fold_helper(P, P.func(k)))}
         only_n = {k for k in only_n if not (P.func(k, required=False) is not None and is_fold_helper(P, P.func(k)))}
+        # builders of a stand-in for the estimator are not kernels either: what they must carry is COPY.complete's business
+        only_d = {k for k in only_d if not (P.func(k, required=False) is not None and standin_builder(P, P.func(k)) is not None)}
+        only_n = {k for k in only_n if not (P.func(k, required=False) is not None and standin_builder(P, P.func(k)) is not None)}
         what = f"switch `{src(site.test)}`: kernels {sorted(x.split(':')[-1] for x in (kd | kn) - aux)}"
         if only_d or only_n:
             R.violation(rule + ".kernels", key, what, f"kernel(s) {sorted(only_d)} only in the Dask arm / {sorted(only_n)} only in the in-memory arm: the two arms do not run the same computation", site.lineno)
@@ -890,4 +893,197 @@ def check_label_compares(P, R, key, labels=("y",), rule="IDX.class-eq"):
             if any(set(labels) & s_.params for s_ in sides):
                 n += 1
                 R.check(isinstance(c.ops[0], ast.Eq), rule, key, src(c)[:60], "membership by equality of label and class", f"`{src(c)[:50]}` does not select the samples whose label *is* the class: the class sums mix the classes", c.lineno)
+    return n
+
+
+def check_return_deps(P, R, key, pattern=r"^(latent_|X$|X_|x_|n_acc|f_acc|data$|stats$|statistics$|means$)", rule="DEP.fast-path"):
+    """Every way out of a kernel uses the same inputs: an early return (a fast path, a special case) whose value does not depend on
+    an input that the general path's value depends on - and whose guards do not say that input is absent - computes something
+    else for the inputs that take it.  Returns of a constant / None / a bare parameter (base cases, empty input) are exempt."""
+    import re
+    from ..cfg import guards_of
+    from ..dataflow import cone as _cone
+
+    f, key = _site(P, key)
+    du = get_defuse(f, P)
+    rets = sorted([r for r in walk_no_nested(f.node) if isinstance(r, ast.Return) and r.value is not None], key=lambda r: (r.lineno, r.col_offset))
+    if len(rets) < 2:
+        return 0
+    main = rets[-1]
+    cm = _cone(du, main.value, main, interproc=True)
+    want = {p_ for p_ in cm.params if re.search(pattern, p_) and p_ in f.params}
+    n = 0
+    for r in rets[:-1]:
+        v = r.value
+        if isinstance(v, ast.Constant) or (isinstance(v, ast.Name) and v.id in f.params) or (isinstance(v, ast.Tuple) and all(isinstance(x, ast.Constant) for x in v.elts)):
+            continue
+        n += 1
+        cr = _cone(du, v, r, interproc=True)
+        tested = set()
+        for t_, pol_ in guards_of(r):
+            for x in ast.walk(t_):
+                if isinstance(x, ast.Compare) and len(x.ops) == 1 and isinstance(x.ops[0], (ast.Is, ast.IsNot)) and isinstance(x.left, ast.Name) and isinstance(x.comparators[0], ast.Constant) and x.comparators[0].value is None:
+                    absent = (isinstance(x.ops[0], ast.Is) and pol_) or (isinstance(x.ops[0], ast.IsNot) and not pol_)
+                    if absent:
+                        tested.add(x.left.id)
+        missing = sorted(want - cr.params - tested)
+        R.check(not missing, rule, key, f"return {src(v)[:50]}", "uses the inputs the general path uses", f"this way out (`return {src(v)[:40]}`) does not use {missing}, which the general path's result depends on: for the inputs that take it the function computes something else", r.lineno)
+    return n
+
+
+# ---------------------------------------------------------------------------------------------------------------------------
+# stand-ins for the estimator that are handed to the kernels (snapshots, worker copies)
+# ---------------------------------------------------------------------------------------------------------------------------
+def standin_builder(P, g):
+    """g is a method that builds and returns a new instance of its own class: (name of the local that holds it, constructor call)"""
+    if g.cls is None:
+        return None
+    cn = g.cls.name
+    for st, t, v, k in stores(g):
+        if isinstance(t, ast.Name) and isinstance(v, ast.Call) and ((isinstance(v.func, ast.Name) and v.func.id in (cn, "cls")) or (isinstance(v.func, ast.Attribute) and v.func.attr == "__class__") or src(v.func) in (f"type({g.self_name})",)):
+            rets = [r for r in walk_no_nested(g.node) if isinstance(r, ast.Return) and r.value is not None]
+            if rets and all(isinstance(r.value, ast.Name) and r.value.id == t.id for r in rets):
+                return t.id, v
+    return None
+
+
+def _attrs_read_from(P, k, prm, depth=0, seen=None):
+    """attribute names read from the parameter `prm` of function k, following calls that pass it on and its own methods"""
+    seen = seen if seen is not None else set()
+    if (k.key, prm) in seen or depth > 3:
+        return set()
+    seen.add((k.key, prm))
+    out = set()
+    for n in walk_no_nested(k.node):
+        if isinstance(n, ast.Attribute) and isinstance(n.value, ast.Name) and n.value.id == prm and isinstance(n.ctx, ast.Load):
+            par = getattr(n, "_parent", None)
+            if isinstance(par, ast.Call) and par.func is n:
+                # a method of the object: what it reads of self
+                for t_ in P.resolve_callee(n, k):
+                    if t_[0] == "repo" and t_[1].self_name:
+                        out |= _attrs_read_from(P, t_[1], t_[1].self_name, depth + 1, seen)
+                continue
+            out.add(n.attr)
+        if isinstance(n, ast.Call):
+            kind, fexpr, args, kws = P.peel_call(n, k)
+            for t_ in P.resolve_callee(fexpr, k):
+                if t_[0] != "repo":
+                    continue
+                b = P.bind_args(t_[1], args, kws)
+                for p2, a2 in b.items():
+                    if isinstance(a2, ast.Name) and a2.id == prm:
+                        out |= _attrs_read_from(P, t_[1], p2, depth + 1, seen)
+    # property getters: reading machine.means reads _means
+    return out
+
+
+def check_standins(P, R, key, kernels=("e_step", "m_step"), rule="COPY.complete"):
+    """When the kernels are given a stand-in for the estimator (a snapshot / worker copy built by a method of the class) instead of
+    the estimator itself, the stand-in carries every attribute the kernels read: one that is left at the constructor's default
+    (a configured floor, a ratio, a flag) makes the arm that uses the stand-in train with another configuration."""
+    f, key = _site(P, key)
+    du = get_defuse(f, P)
+    n = 0
+    for c in walk_no_nested(f.node):
+        if not isinstance(c, ast.Call):
+            continue
+        kind, fexpr, args, kws = P.peel_call(c, f)
+        if src(fexpr).split(".")[-1] not in kernels:
+            continue
+        tg = [t_[1] for t_ in P.resolve_callee(fexpr, f) if t_[0] == "repo"]
+        if not tg:
+            continue
+        b = P.bind_args(tg[0], args, kws)
+        for prm, a in b.items():
+            # resolve the argument to a call of a method of self
+            e, hops = a, 0
+            while hops < 4:
+                if isinstance(e, ast.Name) and e.id != f.self_name:
+                    rd = du.reaching(du.stmt_of(c), e.id)
+                    if len(rd) == 1 and rd[0].how == "assign" and rd[0].value is not None:
+                        e, hops = rd[0].value, hops + 1
+                        continue
+                if isinstance(e, ast.Call) and src(e.func).split(".")[-1] in ("delayed", "persist", "scatter") and e.args:
+                    e, hops = e.args[0], hops + 1
+                    continue
+                break
+            if not (isinstance(e, ast.Call) and isinstance(e.func, ast.Attribute) and isinstance(e.func.value, ast.Name) and e.func.value.id == f.self_name):
+                continue
+            for t_ in P.resolve_callee(e.func, f):
+                if t_[0] != "repo":
+                    continue
+                g = t_[1]
+                sb = standin_builder(P, g)
+                if sb is None:
+                    continue
+                local, ctor = sb
+                n += 1
+                ci = g.cls
+                init = P.lookup_method(ci, "__init__")
+                carried = set()
+                passed = {k_.arg for k_ in ctor.keywords if k_.arg} | set(list(init.posparams[1:])[:len(ctor.args)]) if init is not None else set()
+                if init is not None:
+                    idu = get_defuse(init, P)
+                    from ..dataflow import cone as _cone
+                    for st2, t2, v2, k2 in stores(init):
+                        if isinstance(t2, ast.Attribute) and isinstance(t2.value, ast.Name) and t2.value.id == init.self_name and v2 is not None:
+                            cn_ = _cone(idu, v2, idu.stmt_of(st2), interproc=False)
+                            ps = {p_ for p_ in cn_.params if p_ != init.self_name}
+                            if ps and ps <= passed:
+                                carried.add(t2.attr)
+                for st2, t2, v2, k2 in stores(g):
+                    if isinstance(t2, ast.Attribute) and isinstance(t2.value, ast.Name) and t2.value.id == local:
+                        carried.add(t2.attr)
+                carried |= {"_" + x for x in carried} | {x.lstrip("_") for x in carried}
+                need = _attrs_read_from(P, tg[0], prm)
+                # only data attributes of the class (set in __init__ or by property setters), not methods
+                known = set()
+                for m_ in P.mro(ci):
+                    for fn_ in m_.methods.values():
+                        for st3, t3, v3, k3 in stores(fn_):
+                            if isinstance(t3, ast.Attribute) and isinstance(t3.value, ast.Name) and t3.value.id == fn_.self_name:
+                                known.add(t3.attr)
+                missing = sorted(x for x in need & known if x not in carried)
+                R.check(not missing, rule, key, f"{tg[0].qualname}({prm}={src(a)[:30]}) <- {g.qualname}", f"the stand-in carries the {len(need & known)} attributes the kernel reads", f"the stand-in built by {g.qualname} does not carry {missing}, which {tg[0].qualname} reads from its `{prm}`: they stay at the constructor's defaults, so this arm does not train with the estimator's configuration", c.lineno)
+    return n
+
+
+def check_reduction_siblings(P, R, modules, rule="LOGDOM.combine"):
+    """`da.reduction(chunk=, combine=, aggregate=)`: combine and aggregate both merge per-block states, combine for the
+    intermediate levels of the tree (only when there are more blocks than split_every), aggregate for the last.  When the aggregate
+    step rescales what it adds (sum(s_i * exp(m_i - m)): states relative to a per-block maximum), the combine step must do the
+    same; adding the scaled sums as they are is exact only while no intermediate level exists."""
+    from ..dataflow import cone as _cone
+    n = 0
+    for f in P.all_funcs(modules):
+        for c in walk_no_nested(f.node):
+            if not (isinstance(c, ast.Call) and src(c.func).split(".")[-1] == "reduction"):
+                continue
+            kw = {k.arg: k.value for k in c.keywords if k.arg}
+            if "combine" not in kw or "aggregate" not in kw:
+                continue
+            fns = {}
+            for role in ("combine", "aggregate"):
+                tg = [t_[1] for t_ in P.resolve_callee(kw[role], f) if t_[0] == "repo"] if isinstance(kw[role], (ast.Name, ast.Attribute)) else []
+                fns[role] = tg[0] if tg else None
+            if fns["combine"] is None or fns["aggregate"] is None:
+                continue
+            n += 1
+            if fns["combine"].key == fns["aggregate"].key:
+                R.ok(rule, f.key, src(c)[:60], "combine and aggregate are the same function", c.lineno)
+                continue
+            def sums(g):
+                gdu = get_defuse(g, P)
+                out = []
+                for x in walk_no_nested(g.node):
+                    if isinstance(x, ast.Call) and src(x.func).split(".")[-1] in ("sum", "nansum") and x.args:
+                        cn = _cone(gdu, x.args[0], gdu.stmt_of(x), interproc=False)
+                        out.append((x, any(isinstance(y, ast.Call) and src(y.func).split(".")[-1] in ("exp", "exp2", "expm1") for y in cn.nodes)))
+                return out
+            sa_, sc_ = sums(fns["aggregate"]), sums(fns["combine"])
+            if any(e for _, e in sa_) and sc_ and not any(e for _, e in sc_):
+                bad = sc_[0][0]
+                R.violation(rule, fns["combine"].key, src(bad)[:60], f"the aggregate step {fns['aggregate'].qualname} rescales the per-block sums to a common reference (sum of s_i * exp(m_i - m)) before adding them, the combine step adds them as they are: as soon as the reduction has an intermediate level (more blocks than split_every, i.e. more than 4 components) the result is wrong by up to the log of the fan-in", bad.lineno)
+            else:
+                R.ok(rule, f.key, src(c)[:60], "combine and aggregate merge the block states alike", c.lineno)
     return n
